@@ -90,7 +90,8 @@ func newWorld(c *hx.Ctx) *world {
 	w.bodies = [][]byte{[]byte("b"), []byte("body one"), []byte("body one."), {0}, c.RandBytes(40),
 		[]byte("1 - SIGN - body"), c.RandBytes(3)}
 	w.hts = []hash.HashType{hash.HashType_HashType_SHA256, hash.HashType_HashType_SHA1, hash.HashType_HashType_BLAKE3}
-	w.badHts = []hash.HashType{0, 4, 99, -1, 1 << 20}
+	// unsupported values incl. ones that equal a supported value after truncation to 8 / 16 / 24 bits or sign loss
+	w.badHts = []hash.HashType{0, 4, 99, -1, 1 << 20, 257, 258, 259, 65537, 1<<24 | 3, -255, -2147483647, 2147483647, 256}
 	return w
 }
 
@@ -177,33 +178,24 @@ func (w *world) senderTerm(s string) string {
 
 // ---------------------------------------------------------------- argument integrity helpers
 
-// spare returns a copy of b that is a sub-slice of a larger buffer (spare
-// capacity before and after, filled with a sentinel) and the whole buffer.
+// spare returns a copy of b that is a sub-slice whole[guardPad:guardPad+len(b)]
+// of a larger patterned buffer (guardPad = 96 bytes before, 96 bytes of spare
+// capacity after) and the whole buffer.  nil stays nil.
 func spare(b []byte) (sub, whole []byte) {
-	if b == nil {
+	sub, g := guardBytes(b)
+	if g == nil {
 		return nil, nil
 	}
-	whole = bytes.Repeat([]byte{0xA5}, len(b)+16)
-	copy(whole[5:], b)
-	return whole[5 : 5+len(b)], whole
+	return sub, g.whole
 }
 
-// intact reports whether the sentinel bytes around the sub-slice are untouched and the content equals want.
+// intact reports whether the pattern around the sub-slice is untouched and the content equals want.
 func intact(whole, want []byte) bool {
 	if whole == nil {
 		return true
 	}
-	for i := 0; i < 5; i++ {
-		if whole[i] != 0xA5 {
-			return false
-		}
-	}
-	for i := 5 + len(want); i < len(whole); i++ {
-		if whole[i] != 0xA5 {
-			return false
-		}
-	}
-	return bytes.Equal(whole[5:5+len(want)], want)
+	g := &guard{whole: whole, n: len(want), want: want}
+	return !g.argChanged() && !g.outsideChanged()
 }
 
 func sameMsg(a, b *peer.SignedMsg) bool {
@@ -257,7 +249,7 @@ func (w *world) extractAndVerify(m *peer.SignedMsg, ctx []byte) evRes {
 	if !sameMsg(before, m) {
 		w.c.Failf("c01-argument-modified", d, "ExtractAndVerify modified the message it was called on")
 	}
-	if w.calls%3 == 0 && r.cls != 99 {
+	if w.calls%2 == 0 && r.cls != 99 {
 		m2, bufs := spareMsg(before)
 		r2 := w.extractAndVerify1(m2, ctx)
 		r3 := w.extractAndVerify1(m2, ctx)
@@ -662,7 +654,20 @@ func c01(c *hx.Ctx, w *world) {
 		}
 		var err error
 		var m *peer.SignedMsg
-		panicked, pv := hx.Catch(func() { m, err = peer.NewSignedMsg(string(t.ctx), w.privs[t.k], t.ht, t.data) })
+		dArg, dWhole := spare(t.data)
+		panicked, pv := hx.Catch(func() { m, err = peer.NewSignedMsg(string(t.ctx), w.privs[t.k], t.ht, dArg) })
+		if !intact(dWhole, t.data) {
+			c.Failf("c01-argument-modified", map[string]any{"kind": "NewSignedMsg", "tuple": t.String()}, "NewSignedMsg modified its data argument or wrote beyond its length")
+		}
+		if !panicked && err == nil {
+			m2, err2 := peer.NewSignedMsg(string(t.ctx), w.privs[t.k], t.ht, dArg)
+			m3, err3 := peer.NewSignedMsg(string(t.ctx), w.privs[t.k], t.ht, clone(t.data))
+			c.Eval()
+			c.Eval()
+			if err2 != nil || err3 != nil || !sameMsg(m, m2) || !sameMsg(m, m3) || !intact(dWhole, t.data) {
+				c.Failf("c01-repeated-call-differs", map[string]any{"kind": "NewSignedMsg", "tuple": t.String()}, "repeating NewSignedMsg (same data slice / fresh copy) gave a different message or modified the data")
+			}
+		}
 		cls := 0
 		switch {
 		case panicked:
@@ -748,12 +753,14 @@ func c01(c *hx.Ctx, w *world) {
 		}
 		if !panicked && i%2 == 0 {
 			sub, whole := spare(wireBefore)
-			var dm2 *peer.SignedMsg
-			var derr2 error
-			p2, _ := hx.Catch(func() { dm2, derr2 = peer.UnmarshalSignedMsg(sub) })
-			c.Eval()
-			if p2 || (derr == nil) != (derr2 == nil) || (derr == nil && !sameMsg(dm, dm2)) {
-				c.Failf("c01-repeated-call-differs", map[string]any{"kind": "UnmarshalSignedMsg", "wire_hex": hx.Hex(wireBefore)}, "decoding the same bytes from a buffer with spare capacity gave a different result")
+			for rep := 0; rep < 2; rep++ {
+				var dm2 *peer.SignedMsg
+				var derr2 error
+				p2, _ := hx.Catch(func() { dm2, derr2 = peer.UnmarshalSignedMsg(sub) })
+				c.Eval()
+				if p2 || (derr == nil) != (derr2 == nil) || (derr == nil && !sameMsg(dm, dm2)) {
+					c.Failf("c01-repeated-call-differs", map[string]any{"kind": "UnmarshalSignedMsg", "wire_hex": hx.Hex(wireBefore)}, "decoding the same bytes as a sub-slice of a larger buffer (call %d) gave a different result", rep+1)
+				}
 			}
 			if whole != nil && !intact(whole, wireBefore) {
 				c.Failf("c01-argument-modified", map[string]any{"kind": "UnmarshalSignedMsg", "wire_hex": hx.Hex(wireBefore)}, "UnmarshalSignedMsg wrote to its input buffer or beyond its length")
@@ -821,9 +828,14 @@ func c02(c *hx.Ctx, w *world) {
 			c.Failf("c02-argument-modified", map[string]any{"kind": "NewSignature", "tuple": t.String()}, "NewSignature modified its data argument (or wrote beyond it) or the private key")
 		}
 		if !panicked && err == nil {
-			s2, err2 := peer.NewSignature(string(t.ctx), w.privs[t.k], t.ht, t.data, incl)
+			s2, err2 := peer.NewSignature(string(t.ctx), w.privs[t.k], t.ht, clone(t.data), incl)
+			s3, err3 := peer.NewSignature(string(t.ctx), w.privs[t.k], t.ht, dsub, incl) // the same slice again
 			c.Eval()
-			if err2 != nil || !bytes.Equal(s2.GetSigData(), s.GetSigData()) || !bytes.Equal(s2.GetPubKey(), s.GetPubKey()) {
+			c.Eval()
+			if !intact(dwhole, t.data) {
+				c.Failf("c02-argument-modified", map[string]any{"kind": "NewSignature", "tuple": t.String()}, "NewSignature modified its data argument or wrote beyond it (second call)")
+			}
+			if err2 != nil || err3 != nil || !bytes.Equal(s2.GetSigData(), s.GetSigData()) || !bytes.Equal(s2.GetPubKey(), s.GetPubKey()) || !bytes.Equal(s3.GetSigData(), s.GetSigData()) {
 				c.Failf("c02-repeated-call-differs", map[string]any{"kind": "NewSignature", "tuple": t.String()}, "two NewSignature calls with identical inputs produced different signature objects")
 			}
 		}
@@ -939,7 +951,7 @@ func c02(c *hx.Ctx, w *world) {
 		if !bytes.Equal(dataArg, v.data) || !bytes.Equal(s.SigData, sBefore.SigData) || !bytes.Equal(s.PubKey, sBefore.PubKey) || s.HashType != sBefore.HashType || !bytes.Equal(pubRawAfter, pubRawBefore) {
 			c.Failf("c02-argument-modified", argd, "VerifyWithPublic modified its data argument, the signature object or the public key")
 		}
-		if !panicked && i%3 == 0 {
+		if !panicked && i%2 == 0 {
 			dsub, dwhole := spare(v.data)
 			ssub, swhole := spare(sBefore.SigData)
 			s2 := &peer.Signature{PubKey: clone(sBefore.PubKey), HashType: sBefore.HashType, SigData: ssub}
@@ -1031,7 +1043,18 @@ func c02(c *hx.Ctx, w *world) {
 			s = &peer.Signature{}
 		}
 		vBefore := &peer.Signature{PubKey: clone(s.PubKey), HashType: s.HashType, SigData: clone(s.SigData)}
+		var vPubWhole, vSigWhole []byte
+		if i%2 == 0 && sp != nil {
+			s.PubKey, vPubWhole = spare(vBefore.PubKey)
+			s.SigData, vSigWhole = spare(vBefore.SigData)
+			if len(vBefore.PubKey) == 0 {
+				s.PubKey, vPubWhole = nil, nil
+			}
+		}
 		panicked, pv := hx.Catch(func() { err = sp.Validate() })
+		if !intact(vPubWhole, vBefore.PubKey) || !intact(vSigWhole, vBefore.SigData) {
+			c.Failf("c02-argument-modified", map[string]any{"kind": "Signature.Validate", "sig_data_hex": hx.Hex(vBefore.SigData)}, "Validate wrote to a field buffer or beyond its length")
+		}
 		if !bytes.Equal(vBefore.PubKey, s.PubKey) || !bytes.Equal(vBefore.SigData, s.SigData) || vBefore.HashType != s.HashType {
 			c.Failf("c02-argument-modified", map[string]any{"kind": "Signature.Validate", "sig_data_hex": hx.Hex(vBefore.SigData)}, "Validate modified the signature object")
 		}
